@@ -9,6 +9,7 @@ CONSTANTS KeyLetters, MaxKeyLen, MaxLen, ExportLen,
           Only        \* {} = explore everything; else a set of histories (sequences of keys) to replay
 VARIABLES hist, obs
 vars == <<hist, obs>>
+View == hist          \* obs is a function of hist: keep it out of the fingerprint
 
 RECURSIVE Words(_, _)
 Words(L, n) == IF n = 0 THEN {<<>>}
